@@ -405,7 +405,7 @@ def run(ctx):
     ctx.rule = ("A: all version strings over %s up to length %d x clusters {none, c, c.d, c:d} x modules {m, p.m} x functions "
                 "{f, C.f}; B: versions of length <= %d (plus all length-3 strings containing ':' or '#' in thorough) as real "
                 "explicit versions in default and named clusters on memory and filesystem backends; C: all step sequences of "
-                "length <= 2 over %s for callee kinds {memento, explicit} x {default, named, named with a name that is a prefix of the module name} cluster x {callee called, callee handed to a middle function as an argument}, cross-process and in-process; listings may only grow. "
+                "length <= 2 (thorough: 3, and 4 in the default cluster) over %s for callee kinds {memento, explicit} x {default, named, named with a name that is a prefix of the module name} cluster x {callee called, callee handed to a middle function as an argument}, cross-process and in-process; listings may only grow. "
                 "distinct = version strings / (version, cluster, backend) / evolution histories."
                 % (SIGMA, 4 if thorough else 3, 2, STEPS))
     ctx.assumptions += ["cluster names do not contain '::'", "module and function names are dotted Python identifiers"]
@@ -422,8 +422,12 @@ def run(ctx):
     for kind in ("memento", "explicit"):
         for cluster in (None, "vfc", "vf"):  # "vf" is a prefix of the module name vfp.a
             for argpass in (False, True):
-                for n in (1, 2):
+                for n in (1, 2, 3, 4) if thorough else (1, 2):
                     if n == 2 and not thorough and (cluster == "vf" or argpass):
+                        continue
+                    if n == 3 and (cluster == "vf" or (argpass and kind == "explicit")):
+                        continue
+                    if n == 4 and (cluster is not None or argpass):
                         continue
                     for steps in itertools.product(STEPS, repeat=n):
                         tasks.append((kind, cluster, steps, "xproc", argpass))
